@@ -1,8 +1,13 @@
-(* C12: `keyed` (every live waiter entry carries the current effective priority of its
-   task) is NOT an invariant of reachable states: when the high-priority waiter from which a
-   queued task inherited leaves by cancellation, acquire()'s `finally` removes its entry but
-   nobody re-keys the inheritor's entry in the lock it is queued on.  The entry keeps a stale,
-   too urgent key, and release() hands the lock to it over a waiter that is now more urgent. *)
+(* C12, finding F16 and its repair.
+   Before the repair, acquire()'s `finally` only removed the leaving waiter's entry: when the
+   high-priority waiter from which a QUEUED lock holder inherited left by cancellation, the
+   holder's effective priority fell back but nobody re-keyed the holder's own entry in the
+   lock it is queued on.  The entry kept a stale, too urgent key, `keyed` failed in a reachable
+   state and release() handed that lock to it over a waiter that was now more urgent.
+   The repaired `finally` (Model.acquire_p_finish) calls propagate_priority on the owner of a
+   lock that stays locked; below: (1) the refutation of the old text on a reachable state,
+   (2) the same run in the current model, where the entry is re-keyed and the hand-over is
+   right. *)
 From Coq Require Import QArith Lqa Sorting.Permutation.
 From RecordUpdate Require Import RecordUpdate.
 From Asynkit Require Import Base.Prelude Queue.PQ Queue.Order Queue.PosPQ Queue.PosProofs Queue.Exec
@@ -17,7 +22,8 @@ Open Scope nat_scope.
    lock 0 (future 3, arrival 0); W2 (task 2, priority 3) queues on lock 0 (future 4,
    arrival 1); X (task 3, priority -5) queues on lock 1 (future 6): W1's entry in lock 0 is
    re-keyed to -5 (state istA of InheritExamples.v, where keyed holds for both locks).
-   Then X is cancelled from outside and runs: it leaves lock 1. *)
+   Then X is cancelled from outside (state istX: X is runnable, its cancelled future 6 is
+   still queued on lock 1) and runs acquire()'s `finally`: it leaves lock 1 (state istLeft). *)
 Definition sH : script :=
   SDo (OAcquire 0) (SDo OSleep0 (SDo OSleep0 (SDo OSleep0 (SDo OSleep0 (SDo (ORelease 0) SEnd))))).
 Definition sW1 : script :=
@@ -28,13 +34,15 @@ Definition sX : script := SDo (OAcquire 1) (SDo (ORelease 1) SEnd).
 Definition sacts_inh : list saction :=     (* ... up to X queued on lock 1, W1 inherits -5 *)
   [XSpawn (SPrio 0) sH; XStep; XSpawn (SPrio 5) sW1; XSpawn (SPrio 3) sW2;
    XStep; XStep; XStep; XSpawn (SPrio (-5)) sX; XStep; XStep].
-Definition sacts_cancel : list saction :=  (* X.cancel(); H sleeps; X runs acquire's finally *)
-  [XDo (OCancel 3); XStep; XStep].
+Definition sacts_cancel : list saction :=  (* X.cancel(); H sleeps *)
+  [XDo (OCancel 3); XStep].
+Definition sacts_fin : list saction := [XStep].   (* X runs acquire's finally *)
 Definition sacts_rel : list saction := [XStep].   (* H releases lock 0 *)
 Definition st0 : st := init_st false 0 [] [LPrio; LPrio] [] 0.
 Definition run_to (l : list saction) : st := fold_left do_action (map act l) st0.
-Definition istStale : st := run_to (sacts_inh ++ sacts_cancel).
-Definition istAfter : st := run_to (sacts_inh ++ sacts_cancel ++ sacts_rel).
+Definition istX : st := run_to (sacts_inh ++ sacts_cancel).
+Definition istLeft : st := run_to (sacts_inh ++ sacts_cancel ++ sacts_fin).
+Definition istAfter : st := run_to (sacts_inh ++ sacts_cancel ++ sacts_fin ++ sacts_rel).
 
 (* the run has no eager spawn (and no spawn from inside a task at all) *)
 Fixpoint script_flat (s : script) : bool :=
@@ -47,34 +55,124 @@ Fixpoint script_flat (s : script) : bool :=
   end.
 Definition sact_no_eager (a : saction) : bool :=
   match a with XSpawn SEager _ => false | XSpawn _ s => script_flat s | _ => true end.
-Example stale_no_eager : forallb sact_no_eager (sacts_inh ++ sacts_cancel ++ sacts_rel) = true.
+Example stale_no_eager : forallb sact_no_eager (sacts_inh ++ sacts_cancel ++ sacts_fin ++ sacts_rel) = true.
 Proof. reflexivity. Qed.
 
-Example stale_run_ok : run_ok st0 (map act ((sacts_inh ++ sacts_cancel) ++ sacts_rel)).
+Example stale_run_ok : run_ok st0 (map act (sacts_inh ++ sacts_cancel ++ sacts_fin ++ sacts_rel)).
 Proof. vm_compute. repeat split. Qed.
 
-Example reachable_istStale : reachable istStale.
+Example reachable_istX : reachable istX.
 Proof.
   exists false, 0%Q, [], [LPrio; LPrio], [], 0, (map act (sacts_inh ++ sacts_cancel)).
   split; [|reflexivity].
-  apply (run_ok_app st0 _ (map act sacts_rel)). rewrite <- map_app. apply stale_run_ok.
+  apply (run_ok_app st0 _ (map act (sacts_fin ++ sacts_rel))). rewrite <- map_app, <- !app_assoc.
+  apply stale_run_ok.
+Qed.
+Example reachable_istLeft : reachable istLeft.
+Proof.
+  exists false, 0%Q, [], [LPrio; LPrio], [], 0, (map act (sacts_inh ++ sacts_cancel ++ sacts_fin)).
+  split; [|reflexivity].
+  apply (run_ok_app st0 _ (map act sacts_rel)). rewrite <- map_app, <- !app_assoc. apply stale_run_ok.
 Qed.
 Example reachable_istAfter : reachable istAfter.
 Proof.
-  exists false, 0%Q, [], [LPrio; LPrio], [], 0, (map act (sacts_inh ++ sacts_cancel ++ sacts_rel)).
-  split; [|reflexivity]. rewrite app_assoc. apply stale_run_ok.
+  exists false, 0%Q, [], [LPrio; LPrio], [], 0,
+    (map act (sacts_inh ++ sacts_cancel ++ sacts_fin ++ sacts_rel)).
+  split; [|reflexivity]. apply stale_run_ok.
 Qed.
 
-(* the wait-for graph of istStale is acyclic: W1, W2 wait for H; nobody waits for W1 *)
-Lemma istStale_graph :
-  (tholding (gett istStale 0) = [0] /\ tholding (gett istStale 1) = [1] /\
-   tholding (gett istStale 2) = [] /\ tholding (gett istStale 3) = []) /\
-  (lock_waiter_tasks (getl istStale 0) = [1; 2] /\ lock_waiter_tasks (getl istStale 1) = []) /\
-  efuel istStale = 7.
-Proof. repeat split; vm_compute; reflexivity. Qed.
-Example istStale_ranked : ranked istStale.
+(* ---------------------------------------------------------------- the reachable state istX *)
+(* X's future 6 is cancelled but still queued on lock 1 (X has not run yet: it is the next
+   handle in the ready queue), so W1 still inherits -5, its entry in lock 0 carries -5 and
+   `keyed` holds for both locks *)
+Lemma istX_arr0 : arr (lpq (getl istX 0)) = [mkE (-5)%Q 0 3; mkE 3%Q 1 4].
+Proof. vm_compute; reflexivity. Qed.
+Lemma istX_arr1 : arr (lpq (getl istX 1)) = [mkE (-5)%Q 0 6].
+Proof. vm_compute; reflexivity. Qed.
+Example istX_facts :
+  arr (lpq (getl istX 0)) = [mkE (-5)%Q 0 3; mkE 3%Q 1 4] /\
+  lwt (getl istX 0) = [(3, 1); (4, 2)] /\
+  arr (lpq (getl istX 1)) = [mkE (-5)%Q 0 6] /\ lwt (getl istX 1) = [(6, 3)] /\
+  lowner (getl istX 0) = Some 0 /\ lowner (getl istX 1) = Some 1 /\
+  map (fun t => Qred (effective_priority istX t)) [0; 1; 2; 3] = [(-5)%Q; (-5)%Q; 3%Q; (-5)%Q] /\
+  map (fun f => fstate_ (getf istX f)) [3; 4; 6] = [FPending; FPending; FCancelled] /\
+  (* X (task 3) is suspended in acquire(lock 1) on future 6 and is the next task to run *)
+  tframes istX 3 = [InFut 6; InAcquireP 1 6 true] /\ task_is_runnable istX 3 = true /\
+  keyed istX 0 /\ keyed istX 1.
 Proof.
-  destruct istStale_graph as ((H0 & H1 & H2 & H3) & (W0 & W1) & Hf).
+  split; [apply istX_arr0|]. do 9 (split; [vm_compute; reflexivity|]). split.
+  - intros e He _. rewrite istX_arr0 in He. destruct He as [<-|[<-|[]]]; vm_compute; reflexivity.
+  - intros e He _. rewrite istX_arr1 in He. destruct He as [<-|[]]; vm_compute; reflexivity.
+Qed.
+
+(* ---------------------------------------------------------------- before the repair (F16) *)
+(* PriorityLock.acquire after `await fut` as it was: the `finally` clause removes the entry
+   and passes the wake-up on if the lock is free; nothing else *)
+Definition acquire_p_finish_old (s : st) (t l f : nat) (had : bool) (inp : reply) : st * reply :=
+  let '(s, r) := match inp with
+                 | RVal _ => match take_lock s l t with
+                             | inl s' => (s', RVal 1)
+                             | inr e => (s, RExc e)
+                             end
+                 | RExc e => (s, RExc e)
+                 end in
+  let lk := getl s l in
+  let s := match pq_remove HQ (lpq lk) (Z.of_nat f) with
+           | Some (_, q') => setl s l (lk <| lpq := q' |>
+                                        <| lwt := filter (fun pr => negb (Nat.eqb (fst pr) f)) (lwt lk) |>)
+           | None => s
+           end in
+  let s := if llocked (getl s l) then s else wake_up_first_p s l in
+  let s := if had then sett s t (gett s t <| twaiting := None |>) else s in
+  (s, r).
+
+(* the two versions differ only when the lock stays locked by somebody else: in particular
+   they agree whenever the caller ends up owning the lock or the lock ends up free.  (In the
+   run up to istX no acquire() has reached its `finally` at all, so istX is reached by the
+   unrepaired code as well.) *)
+Lemma finish_old_agrees s t l f had inp :
+  (let s' := fst (acquire_p_finish_old s t l f had inp) in
+   llocked (getl s' l) = false \/ lowner (getl s' l) = Some t \/ lowner (getl s' l) = None) ->
+  acquire_p_finish s t l f had inp = acquire_p_finish_old s t l f had inp.
+Proof.
+  unfold acquire_p_finish, acquire_p_finish_old.
+  set (p0 := match inp with
+             | RVal _ => match take_lock s l t with inl s' => (s', RVal 1) | inr e => (s, RExc e) end
+             | RExc e => (s, RExc e) end).
+  destruct p0 as [s0 r]. cbv zeta.
+  set (s1 := match pq_remove HQ (lpq (getl s0 l)) (Z.of_nat f) with
+             | Some (_, q') => _ | None => s0 end).
+  cbn [fst]. intros H.
+  destruct (llocked (getl s1 l)) eqn:El; [|reflexivity].
+  assert (E : forall x : st, getl (if had then sett x t (gett x t <| twaiting := None |>) else x) l = getl x l)
+    by (intros x; destruct had; reflexivity).
+  rewrite E in H. rewrite El in H.
+  destruct (lowner (getl s1 l)) as [o|]; [|reflexivity].
+  destruct H as [H|[H|H]]; try discriminate. inversion H; subst o. now rewrite Nat.eqb_refl.
+Qed.
+
+(* X's `finally` with the old text, in the reachable state istX *)
+Definition istXold : st := fst (acquire_p_finish_old istX 3 1 6 true (RExc ECancelled)).
+(* ... and with the current one *)
+Definition istXnew : st := fst (acquire_p_finish istX 3 1 6 true (RExc ECancelled)).
+
+Lemma istXold_def : istXold = fst (acquire_p_finish_old istX 3 1 6 true (RExc ECancelled)).
+Proof. unfold istXold. reflexivity. Qed.
+Lemma istXnew_def : istXnew = fst (acquire_p_finish istX 3 1 6 true (RExc ECancelled)).
+Proof. unfold istXnew. reflexivity. Qed.
+Lemma istX_fut6 : fstate_ (getf istX 6) = FCancelled.
+Proof. vm_compute; reflexivity. Qed.
+
+(* the wait-for graph of istXold is acyclic: W1, W2 wait for H; nobody waits for W1 *)
+Lemma istXold_graph :
+  (tholding (gett istXold 0) = [0] /\ tholding (gett istXold 1) = [1] /\
+   tholding (gett istXold 2) = [] /\ tholding (gett istXold 3) = []) /\
+  (lock_waiter_tasks (getl istXold 0) = [1; 2] /\ lock_waiter_tasks (getl istXold 1) = []) /\
+  efuel istXold = 7.
+Proof. repeat split; vm_compute; reflexivity. Qed.
+Example istXold_ranked : ranked istXold.
+Proof.
+  destruct istXold_graph as ((H0 & H1 & H2 & H3) & (W0 & W1) & Hf).
   exists (fun t => match t with 0 => 1 | _ => 0 end). split.
   - intros w t (l & Hl & Hw). destruct t as [|[|[|[|t]]]].
     + rewrite H0 in Hl. destruct Hl as [<-|[]]. rewrite W0 in Hw. destruct Hw as [<-|[<-|[]]]; lia.
@@ -85,40 +183,42 @@ Proof.
   - intros t. rewrite Hf. destruct t; lia.
 Qed.
 
-Lemma istStale_arr0 : arr (lpq (getl istStale 0)) = [mkE (-5)%Q 0 3; mkE 3%Q 1 4].
+Lemma istXold_arr0 : arr (lpq (getl istXold 0)) = [mkE (-5)%Q 0 3; mkE 3%Q 1 4].
 Proof. vm_compute; reflexivity. Qed.
 
-Example istStale_facts :
+Example istXold_facts :
   (* lock 0: W1's entry (future 3) still carries the inherited key -5 ... *)
-  arr (lpq (getl istStale 0)) = [mkE (-5)%Q 0 3; mkE 3%Q 1 4] /\
-  lwt (getl istStale 0) = [(3, 1); (4, 2)] /\
+  arr (lpq (getl istXold 0)) = [mkE (-5)%Q 0 3; mkE 3%Q 1 4] /\
+  lwt (getl istXold 0) = [(3, 1); (4, 2)] /\
   (* ... X has left lock 1, which W1 still holds ... *)
-  arr (lpq (getl istStale 1)) = [] /\ lowner (getl istStale 1) = Some 1 /\
-  lowner (getl istStale 0) = Some 0 /\
+  arr (lpq (getl istXold 1)) = [] /\ lowner (getl istXold 1) = Some 1 /\
+  lowner (getl istXold 0) = Some 0 /\
   (* ... so W1's effective priority is back to its own 5 (H: 0, W2: 3, X: -5) *)
-  map (fun t => Qred (effective_priority istStale t)) [0; 1; 2; 3] = [0%Q; 5%Q; 3%Q; (-5)%Q] /\
-  map (fun t => Qred (wprio istStale t)) [1; 2] = [5%Q; 3%Q] /\
+  map (fun t => Qred (effective_priority istXold t)) [0; 1; 2; 3] = [0%Q; 5%Q; 3%Q; (-5)%Q] /\
+  map (fun t => Qred (wprio istXold t)) [1; 2] = [5%Q; 3%Q] /\
   (* both waiters of lock 0 are live; X's future 6 is cancelled *)
-  map (fun f => fstate_ (getf istStale f)) [3; 4; 6] = [FPending; FPending; FCancelled] /\
-  live istStale (mkE (-5)%Q 0 3) /\ live istStale (mkE 3%Q 1 4) /\
-  ~ keyed istStale 0.
+  map (fun f => fstate_ (getf istXold f)) [3; 4; 6] = [FPending; FPending; FCancelled] /\
+  live istXold (mkE (-5)%Q 0 3) /\ live istXold (mkE 3%Q 1 4) /\
+  (* the queued W1 holds lock 1 *)
+  tholding (gett istXold 1) = [1] /\
+  ~ keyed istXold 0.
 Proof.
-  split; [apply istStale_arr0|]. do 9 (split; [vm_compute; reflexivity|]).
+  split; [apply istXold_arr0|]. do 10 (split; [vm_compute; reflexivity|]).
   intros K. specialize (K (mkE (-5)%Q 0 3)).
-  assert (E : (-5 == wprio istStale (entry_task (getl istStale 0) (mkE (-5)%Q 0 3)))%Q).
-  { apply K; [rewrite istStale_arr0; simpl; auto|vm_compute; reflexivity]. }
-  assert (E2 : (wprio istStale (entry_task (getl istStale 0) (mkE (-5)%Q 0 3)) == 5)%Q)
+  assert (E : (-5 == wprio istXold (entry_task (getl istXold 0) (mkE (-5)%Q 0 3)))%Q).
+  { apply K; [rewrite istXold_arr0; simpl; auto|vm_compute; reflexivity]. }
+  assert (E2 : (wprio istXold (entry_task (getl istXold 0) (mkE (-5)%Q 0 3)) == 5)%Q)
     by (vm_compute; reflexivity).
   lra.
 Qed.
 
 (* H releases lock 0: W1 (effective priority 5, stale key -5) gets the lock although the
    live waiter W2 (effective priority 3) is `before` it; the conclusion of
-   handover_by_eprio fails in a reachable, acyclic state *)
-Definition istStale_free : st := pre_wake istStale 0 0.
-Lemma istStale_before :
-  before istStale_free 0 (mkE 3%Q 1 4) (mkE (-5)%Q 0 3) /\
-  ~ before istStale_free 0 (mkE (-5)%Q 0 3) (mkE 3%Q 1 4).
+   handover_by_eprio fails *)
+Definition istXold_free : st := pre_wake istXold 0 0.
+Lemma istXold_before :
+  before istXold_free 0 (mkE 3%Q 1 4) (mkE (-5)%Q 0 3) /\
+  ~ before istXold_free 0 (mkE (-5)%Q 0 3) (mkE 3%Q 1 4).
 Proof.
   unfold before; cbv zeta.
   set (p1 := wprio _ (entry_task _ (mkE (-5)%Q 0 3))). set (p2 := wprio _ (entry_task _ (mkE 3%Q 1 4))).
@@ -126,25 +226,130 @@ Proof.
   assert (E2 : (p2 == 3)%Q) by (vm_compute; reflexivity).
   split; [left; lra|intros [L|[E _]]; lra].
 Qed.
-Example istStale_handover :
-  release_p istStale 0 0 = (wake_up_first_p istStale_free 0, RVal 0) /\
-  arr (lpq (getl istStale_free 0)) = [mkE (-5)%Q 0 3; mkE 3%Q 1 4] /\
-  map (fun t => Qred (wprio istStale_free t)) [1; 2] = [5%Q; 3%Q] /\
-  live istStale_free (mkE (-5)%Q 0 3) /\ live istStale_free (mkE 3%Q 1 4) /\
+Example istXold_handover :
+  release_p istXold 0 0 = (wake_up_first_p istXold_free 0, RVal 0) /\
+  arr (lpq (getl istXold_free 0)) = [mkE (-5)%Q 0 3; mkE 3%Q 1 4] /\
+  map (fun t => Qred (wprio istXold_free t)) [1; 2] = [5%Q; 3%Q] /\
+  live istXold_free (mkE (-5)%Q 0 3) /\ live istXold_free (mkE 3%Q 1 4) /\
   (* W2's entry is `before` W1's, not the other way round, but W1's future is resolved *)
-  before istStale_free 0 (mkE 3%Q 1 4) (mkE (-5)%Q 0 3) /\
-  ~ before istStale_free 0 (mkE (-5)%Q 0 3) (mkE 3%Q 1 4) /\
-  map (fun f => fstate_ (getf (wake_up_first_p istStale_free 0) f)) [3; 4] = [FResult 1; FPending] /\
-  (* the same in the run itself *)
-  map (fun f => fstate_ (getf istAfter f)) [3; 4] = [FResult 1; FPending] /\
-  map (fun t => Qred (effective_priority istAfter t)) [1; 2] = [5%Q; 3%Q].
+  before istXold_free 0 (mkE 3%Q 1 4) (mkE (-5)%Q 0 3) /\
+  ~ before istXold_free 0 (mkE (-5)%Q 0 3) (mkE 3%Q 1 4) /\
+  map (fun f => fstate_ (getf (wake_up_first_p istXold_free 0) f)) [3; 4] = [FResult 1; FPending].
 Proof.
   split; [apply release_p_wake; vm_compute; reflexivity|].
   do 4 (split; [vm_compute; reflexivity|]).
-  split; [apply istStale_before|]. split; [apply istStale_before|].
+  split; [apply istXold_before|]. split; [apply istXold_before|].
+  vm_compute; reflexivity.
+Qed.
+
+(* ---------------------------------------------------------------- the repaired code *)
+(* the current `finally` re-keys W1's entry in lock 0 to W1's current effective priority 5
+   (arrival number 0 kept); everything else as with the old text *)
+Lemma istXnew_arr0 : arr (lpq (getl istXnew 0)) = [mkE 3%Q 1 4; mkE 5%Q 0 3].
+Proof. vm_compute; reflexivity. Qed.
+Lemma istLeft_arr0 : arr (lpq (getl istLeft 0)) = [mkE 3%Q 1 4; mkE 5%Q 0 3].
+Proof. vm_compute; reflexivity. Qed.
+Lemma istLeft_arr1 : arr (lpq (getl istLeft 1)) = [].
+Proof. vm_compute; reflexivity. Qed.
+
+Lemma istLeft_graph :
+  (tholding (gett istLeft 0) = [0] /\ tholding (gett istLeft 1) = [1] /\
+   tholding (gett istLeft 2) = [] /\ tholding (gett istLeft 3) = []) /\
+  (lock_waiter_tasks (getl istLeft 0) = [2; 1] /\ lock_waiter_tasks (getl istLeft 1) = []) /\
+  efuel istLeft = 7.
+Proof. repeat split; vm_compute; reflexivity. Qed.
+Example istLeft_ranked : ranked istLeft.
+Proof.
+  destruct istLeft_graph as ((H0 & H1 & H2 & H3) & (W0 & W1) & Hf).
+  exists (fun t => match t with 0 => 1 | _ => 0 end). split.
+  - intros w t (l & Hl & Hw). destruct t as [|[|[|[|t]]]].
+    + rewrite H0 in Hl. destruct Hl as [<-|[]]. rewrite W0 in Hw. destruct Hw as [<-|[<-|[]]]; lia.
+    + rewrite H1 in Hl. destruct Hl as [<-|[]]. rewrite W1 in Hw. destruct Hw.
+    + rewrite H2 in Hl. destruct Hl.
+    + rewrite H3 in Hl. destruct Hl.
+    + rewrite gett_oob in Hl by (vm_compute; lia). destruct Hl.
+  - intros t. rewrite Hf. destruct t; lia.
+Qed.
+
+Example istLeft_keyed0 : keyed istLeft 0.
+Proof.
+  intros e He _. rewrite istLeft_arr0 in He. destruct He as [<-|[<-|[]]]; vm_compute; reflexivity.
+Qed.
+Example istLeft_keyed1 : keyed istLeft 1.
+Proof. intros e He _. rewrite istLeft_arr1 in He. destruct He. Qed.
+
+Example istLeft_facts :
+  (* X's finally at lock level, applied to istX: keys of lock 0 are (3, W2), (5, W1) *)
+  arr (lpq (getl istXnew 0)) = [mkE 3%Q 1 4; mkE 5%Q 0 3] /\
+  (* the run itself *)
+  arr (lpq (getl istLeft 0)) = [mkE 3%Q 1 4; mkE 5%Q 0 3] /\
+  lwt (getl istLeft 0) = [(3, 1); (4, 2)] /\
+  arr (lpq (getl istLeft 1)) = [] /\ lowner (getl istLeft 1) = Some 1 /\
+  lowner (getl istLeft 0) = Some 0 /\
+  map (fun t => Qred (effective_priority istLeft t)) [0; 1; 2; 3] = [0%Q; 5%Q; 3%Q; (-5)%Q] /\
+  map (fun t => Qred (wprio istLeft t)) [1; 2] = [5%Q; 3%Q] /\
+  map (fun f => fstate_ (getf istLeft f)) [3; 4; 6] = [FPending; FPending; FCancelled] /\
+  live istLeft (mkE 5%Q 0 3) /\ live istLeft (mkE 3%Q 1 4) /\
+  tholding (gett istLeft 1) = [1] /\
+  keyed istLeft 0 /\ keyed istLeft 1.
+Proof.
+  split; [apply istXnew_arr0|]. split; [apply istLeft_arr0|].
+  do 10 (split; [vm_compute; reflexivity|]). split; [apply istLeft_keyed0|apply istLeft_keyed1].
+Qed.
+
+(* H releases lock 0: the lock goes to W2 (future 4, effective priority 3), which is `before`
+   W1 (effective priority 5) *)
+Definition istLeft_free : st := pre_wake istLeft 0 0.
+Lemma istLeft_free_arr0 : arr (lpq (getl istLeft_free 0)) = [mkE 3%Q 1 4; mkE 5%Q 0 3].
+Proof. vm_compute; reflexivity. Qed.
+Example istLeft_free_keyed : keyed istLeft_free 0.
+Proof.
+  intros e He _. rewrite istLeft_free_arr0 in He. destruct He as [<-|[<-|[]]]; vm_compute; reflexivity.
+Qed.
+Lemma istLeft_before : before istLeft_free 0 (mkE 3%Q 1 4) (mkE 5%Q 0 3).
+Proof.
+  unfold before; cbv zeta.
+  set (p1 := wprio _ (entry_task _ (mkE 3%Q 1 4))). set (p2 := wprio _ (entry_task _ (mkE 5%Q 0 3))).
+  assert (E1 : (p1 == 3)%Q) by (vm_compute; reflexivity).
+  assert (E2 : (p2 == 5)%Q) by (vm_compute; reflexivity).
+  left; lra.
+Qed.
+Example istLeft_handover :
+  release_p istLeft 0 0 = (wake_up_first_p istLeft_free 0, RVal 0) /\
+  arr (lpq (getl istLeft_free 0)) = [mkE 3%Q 1 4; mkE 5%Q 0 3] /\
+  PQInv (lpq (getl istLeft_free 0)) /\ keyed istLeft_free 0 /\
+  before istLeft_free 0 (mkE 3%Q 1 4) (mkE 5%Q 0 3) /\
+  map (fun f => fstate_ (getf (wake_up_first_p istLeft_free 0) f)) [3; 4] = [FPending; FResult 1] /\
+  (* the same in the run itself *)
+  map (fun f => fstate_ (getf istAfter f)) [3; 4] = [FPending; FResult 1] /\
+  map (fun t => Qred (effective_priority istAfter t)) [1; 2] = [5%Q; 3%Q].
+Proof.
+  split; [apply release_p_wake; vm_compute; reflexivity|].
+  split; [apply istLeft_free_arr0|].
+  split.
+  { assert (E : lpq (getl istLeft_free 0) = lpq (getl istLeft 0)) by (vm_compute; reflexivity).
+    rewrite E. apply (iB1 (reachable_inv _ reachable_istLeft) 0). }
+  split; [apply istLeft_free_keyed|]. split; [apply istLeft_before|].
   repeat split; vm_compute; reflexivity.
 Qed.
 
-Print Assumptions istStale_facts.
-Print Assumptions istStale_handover.
-Print Assumptions reachable_istStale.
+(* the conclusion of C12_handover for this release, from the theorem rather than by
+   computation: the woken head (future 4 = W2) is `before` every other live entry *)
+Example istLeft_handover_by_theorem :
+  exists head rest,
+    arr (lpq (getl istLeft_free 0)) = head :: rest /\ 4 = Z.to_nat (eobj head) /\
+    (forall e, In e rest -> live istLeft_free e -> before istLeft_free 0 head e).
+Proof.
+  destruct istLeft_handover as (_ & _ & Hq & Hk & _ & H4 & _).
+  destruct (handover_by_eprio istLeft_free 0 4 Hq Hk) as (head & rest & Ea & Ef & _ & _ & Hb & _).
+  - assert (E1 : fstate_ (getf (wake_up_first_p istLeft_free 0) 4) = FResult 1) by (vm_compute; reflexivity).
+    assert (E2 : fstate_ (getf istLeft_free 4) = FPending) by (vm_compute; reflexivity).
+    rewrite E1, E2. discriminate.
+  - exists head, rest. auto.
+Qed.
+
+Print Assumptions istXold_facts.
+Print Assumptions istXold_handover.
+Print Assumptions istLeft_facts.
+Print Assumptions istLeft_handover.
+Print Assumptions reachable_istX.
